@@ -22,6 +22,10 @@ func AmfIdToNasWithError(amfId string) (amfRegionId uint8, amfSetId uint16, amfP
 		return 0, 0, 0, fmt.Errorf("amfId decode failed: %w", err)
 	}
 
+	if len(amfIdBytes) != 3 {
+		return 0, 0, 0, fmt.Errorf("amfId must be 3 octets, got %d", len(amfIdBytes))
+	}
+
 	amfRegionId = amfIdBytes[0]
 	amfSetId = uint16(amfIdBytes[1])<<2 + (uint16(amfIdBytes[2])&0x00c0)>>6
 	amfPointer = amfIdBytes[2] & 0x3f
